@@ -37,10 +37,13 @@ def c01(run):
     drive(run, "basic", ["map:kv16:collide:24:%d:basic" % (900 * n), "map:kv24:max:20:%d:basic" % (400 * n),
                          "map:k4v4:fewpos:30:%d:basic" % (500 * n), "map:kv16:onegroup:12:%d:basic" % (400 * n)])
     drive(run, "entry", ["map:kv16:zero:14:%d:entry" % (600 * n), "map:kv16:mixed:40:%d:wide" % (700 * n)])
+    drive(run, "wrap", ["map:kv16:wrap:40:%d:basic" % (800 * n), "map:kv16:spread:26:%d:entry" % (600 * n), "map:kv16:wrap:26:%d:iter" % (500 * n)])
     run.trace(**corpus_job(run, 16))
+    for j in entry_goal_jobs(run, ("map",), 16):
+        run.trace(**j)
     if not quick:
         run.trace(**corpus_job(run, 8))
-        run.traces_parallel(fresh_jobs(run) + goal_jobs(run, 16) + goal_jobs(run, 8), workers=6)
+        run.traces_parallel(fresh_jobs(run) + goal_jobs(run, 16) + goal_jobs(run, 8) + entry_goal_jobs(run, ("map",), 8), workers=6)
     if not quick:
         drive(run, "wide2", ["map:kv200:posfix:30:3000:wide", "map:kva64:tagfix:30:3000:wide", "map:k1v4:lowbit:12:2000:wide",
                              "map:kv16:seq:48:4000:basic"])
@@ -94,7 +97,7 @@ def fault_corpus_job(run, W=16):
             "args": ["replay", "--seed", str(run.seed), os.path.join(vlib.VERIF, "corpus", "map_w%d_fault.ndjson" % W)]}
 
 
-def goal_jobs(run, W=16, plans=(1, 2, 3, 6)):
+def goal_jobs(run, W=16, plans=(1, 2, 3, 6, 8, 9)):
     """Scripted goal scenarios (template states x every operation, see bin/gen-corpus)."""
     return [{"name": "goals_w%d_p%d" % (W, p), "backend": "sse2" if W == 16 else "generic",
              "args": ["replay", "--seed", str(run.seed), os.path.join(vlib.VERIF, "corpus", "map_w%d_goals_p%d.ndjson" % (W, p))]} for p in plans]
@@ -105,7 +108,13 @@ def kind_goal_job(run, kind, W=16):
             "args": ["replay", "--seed", str(run.seed), os.path.join(vlib.VERIF, "corpus", "%s_w%d_goals.ndjson" % (kind, W))]}
 
 
-def generic_check(run, models_q, models_t, jobs_q, jobs_t, rule, corpus=False, fault_corpus=False, goals=False, sgoals=False, tgoals=False):
+def entry_goal_jobs(run, kinds, W=16):
+    """Scenarios for the reservation inside RawTable::insert (growth_left = 0 and an EMPTY insert slot), see bin/gen-corpus."""
+    return [{"name": "%sentrygoals_w%d" % (k, W), "backend": "sse2" if W == 16 else "generic",
+             "args": ["replay", "--seed", str(run.seed), os.path.join(vlib.VERIF, "corpus", "%s_w%d_entrygoals.ndjson" % (k, W))]} for k in kinds]
+
+
+def generic_check(run, models_q, models_t, jobs_q, jobs_t, rule, corpus=False, fault_corpus=False, goals=False, sgoals=False, tgoals=False, egoals=()):
     quick = run.tier == Q
     run.assumptions += COMMON_ASSUMPTIONS
     for m in (models_q if quick else models_q + models_t):
@@ -124,9 +133,13 @@ def generic_check(run, models_q, models_t, jobs_q, jobs_t, rule, corpus=False, f
         if not quick:
             jl.append(corpus_job(run, 8))
     if goals:
-        jl += goal_jobs(run, 16, (1, 3) if quick else (1, 2, 3, 6))
+        jl += goal_jobs(run, 16, (1, 3, 8, 9) if quick else (1, 2, 3, 6, 8, 9))
         if not quick:
             jl += goal_jobs(run, 8)
+    if egoals:
+        jl += entry_goal_jobs(run, egoals, 16)
+        if not quick:
+            jl += entry_goal_jobs(run, egoals, 8)
     for flag, kind in ((sgoals, "set"), (tgoals, "table")):
         if flag:
             jl.append(kind_goal_job(run, kind, 16))
@@ -202,7 +215,9 @@ def c03(run):
         [("drops", ["map:kv16:collide:24:1200:wide", "map:kv24:zero:12:600:iter", "map:kv16:fewpos:20:600:two"]),
          ("setdrops", ["set:k8t:collide:20:700:set", "set:k8t:fewpos:16:700:setalg"]),
          ("dropfault", ["map:kv16:collide:20:700:fault:fault=30,fclass=drop", "table:te24:zero:14:400:table:fault=25,fclass=drop",
-                        "set:k8t:collide:16:400:set:fault=25,fclass=drop"])],
+                        "set:k8t:collide:16:400:set:fault=25,fclass=drop"]),
+         ("clonefault", ["map:kv16:collide:16:500:two:fault=40,fclass=clone", "set:k8t:fewpos:14:400:setalg:fault=40,fclass=clone",
+                         "table:te24:zero:12:300:table:fault=40,fclass=clone"])],
         [("drops2", ["map:kv200:collide:30:3000:wide", "map:kva64:max:20:2000:iter", "map:kv16:onegroup:14:3000:two"]),
          ("dropsg", ["map:kv16:collide:24:3000:wide", "set:k8t:zero:14:2000:setalg"], G)],
         "every element id and allocator block is followed through every call: drops observed in each call = drops of the abstract machine; block ledger = layouts of the live tables", corpus=True)
@@ -211,10 +226,11 @@ def c03(run):
 def c06(run):
     return generic_check(run, [("MC_table_w2q.cfg", "MC_table.tla", {"timeout": 300})], [("MC_table_w2t.cfg", "MC_table.tla", {"timeout": 1500, "workers": 12})],
         [("table", ["table:te24:collide:20:1200:table", "table:te24:zero:12:700:table:plan2=mixed", "table:t1:fewpos:16:500:table"]),
-         ("table2", ["table:te32:onegroup:14:800:table", "table:te24:mixed:30:600:table:plan2=collide"])],
+         ("table2", ["table:te32:onegroup:14:800:table", "table:te24:mixed:30:600:table:plan2=collide"]),
+         ("tablewrap", ["table:te24:wrap:30:900:table", "table:te24:spread:26:600:table:plan2=wrap"])],
         [("table3", ["table:te208:collide:24:4000:table", "table:tea64:max:16:3000:table", "table:te24:lowbit:14:3000:table"]),
          ("tableg", ["table:te24:collide:20:3000:table", "table:t1:zero:14:2000:table"], G)],
-        "HashTable operations with caller-supplied hashes (two plans, duplicates of equal elements) validated against the multiset specification; iter_hash outputs, remove + re-insert through the returned VacantEntry, entry() at full load", tgoals=True)
+        "HashTable operations with caller-supplied hashes (two plans, duplicates of equal elements) validated against the multiset specification; iter_hash outputs, remove + re-insert through the returned VacantEntry, entry() at full load", tgoals=True, egoals=("table",))
 
 
 def c07(run):
@@ -223,7 +239,7 @@ def c07(run):
          ("sets2", ["set:k8t:mixed:24:900:setalg:plan2=collide", "set:k1:onegroup:16:700:set"])],
         [("sets3", ["set:k8t:collide:20:4000:setalg:plan2=max", "set:k2:posfix:14:3000:setalg", "set:k8:tagfix:30:3000:set"]),
          ("setsg", ["set:k8t:collide:20:3000:setalg", "set:k8t:zero:12:2000:set"], G)],
-        "pairs of sets built by random histories under independent hash plans; every algebra iterator, predicate, operator and assigning form compared with the mathematical result", sgoals=True)
+        "pairs of sets built by random histories under independent hash plans; every algebra iterator, predicate, operator and assigning form compared with the mathematical result", sgoals=True, egoals=("set",))
 
 
 def c08(run):
@@ -252,6 +268,7 @@ def c10(run):
     return generic_check(run, [("MC_map_w2sel.cfg", "MC_map.tla", {"timeout": 300})] + ITER_MODELS[:2], [],
         [("sel", ["map:kv16:collide:40:1200:iter", "map:kv24:zero:24:700:iter"]),
          ("selset", ["set:k8t:collide:30:800:set", "table:te24:collide:24:600:table"]),
+         ("selwrap", ["map:kv16:wrap:40:1200:iter", "table:te24:wrap:30:600:table", "set:k8t:wrap:30:600:set", "map:kv16:spread:40:600:iter"]),
          ("selfault", ["map:kv16:collide:30:700:iter:fault=30,fclass=drop", "table:te24:zero:14:400:table:fault=25,fclass=drop",
                        "set:k8t:collide:20:400:set:fault=30,fclass=drop"])],
         [("sel2", ["map:kv16:onegroup:12:3000:iter", "map:kv200:fewpos:60:3000:iter"]),
@@ -451,6 +468,7 @@ def c13(run):
         [("churn", ["map:kv16:zero:26:2500:churn", "map:kv16:collide:40:1500:churn"]),
          ("churn2", ["map:k4v4:max:24:2500:churn", "map:kv16:mixed:12:1000:churn"]),
          ("churn3", ["map:kv16:onegroup:30:2500:churn", "map:kv16:zero:10:1000:churn"]),
+         ("churnwrap", ["map:kv16:wrap:30:2500:churn", "map:kv16:spread:26:1500:churn"]),
          {"name": "churngoals_w16", "backend": "sse2", "args": ["replay", "--seed", "@SEED@", "corpus/map_w16_churn.ndjson"]}],
         [("churn4", ["map:kv16:zero:26:20000:churn"], {"tlc_timeout": 1800}),
          ("churn5", ["map:kv24:collide:40:20000:churn"], {"tlc_timeout": 1800}),
@@ -462,10 +480,11 @@ def c13(run):
 def c14(run):
     return generic_check(run, [("MC_map_w2entry.cfg", "MC_map.tla", {"timeout": 300})], [],
         [("entry", ["map:kv16:collide:24:1500:entry", "map:kv16:zero:12:800:entry"]),
-         ("entry2", ["map:k4v4:onegroup:14:800:entry", "set:k8t:collide:20:600:set"])],
+         ("entry2", ["map:k4v4:onegroup:14:800:entry", "set:k8t:collide:20:600:set"]),
+         ("entrywrap", ["map:kv16:spread:26:1500:entry", "map:kv16:wrap:30:800:entry", "map:kv16:spread:60:800:entry"])],
         [("entry3", ["map:kv24:fewpos:30:4000:entry", "map:kv200:max:20:3000:entry"]),
          ("entryg", ["map:kv16:collide:24:3000:entry"], G)],
-        "every entry / entry_ref / raw_entry / rustc_entry method chain on random states incl. full-load and tombstone-saturated tables, compared with the get/insert/remove semantics of the abstract map", corpus=True, goals=True)
+        "every entry / entry_ref / raw_entry / rustc_entry method chain on random states incl. full-load and tombstone-saturated tables, compared with the get/insert/remove semantics of the abstract map", corpus=True, goals=True, egoals=("map", "set", "table"))
 
 
 def c15(run):
